@@ -1,0 +1,36 @@
+//go:build verif
+
+package yaml
+
+// Contracts for the govc verifier (see /verif/DESIGN.md). This file contains comments only.
+// An *ast.File is modelled by an abstract document state yfile[f]; path lookup and replacement are assumed
+// contracts of goccy/go-yaml (validated boundedly).
+
+//@ func Get(f, p) returns (path, node, ex, err)
+//@   mode ctl
+//@   requires f != nil
+//@   assigns alloc
+//@   ensures [bad_path] ypErr(p) != nil ==> err == ypErr(p) && !ex
+//@   ensures [found] ypErr(p) == nil && yHas(yfile[f], p) ==> err == nil && ex && node == yNodeOf(yfile[f], p) && path != nil && ypathStr[path] == p
+//@   ensures [missing] ypErr(p) == nil && !yHas(yfile[f], p) ==> !ex && err == (yFilterErr(yfile[f], p) == yaml.ErrNotFoundNode ? nil : yFilterErr(yfile[f], p)) && path != nil && ypathStr[path] == p
+//@
+//@ func Update(f, path, value) returns (err)
+//@   mode ctl
+//@   requires f != nil && path != nil
+//@   assigns yfile[f], alloc
+//@   ensures err == yUpdErr(old(yfile[f]), ypathStr[path], value)
+//@   ensures err != nil ==> yfile[f] == old(yfile[f])
+//@   ensures err == nil ==> yfile[f] == ySet(old(yfile[f]), ypathStr[path], value)
+//@
+//@ func GetValue(node) returns (v, err)
+//@   mode ctl
+//@   assigns alloc
+//@   ensures [value] err == nil ==> v == yamlValueOf(yNodeText(node))
+//@
+//@ func MarshalFile(f, addNewLine) returns (r)
+//@   mode ctl
+//@   requires f != nil
+//@   assigns nothing
+//@   ensures owned(r)
+//@   ensures [assumed_abstraction] r == yRender(yfile[f], addNewLine)
+//@   loop 1 invariant 0 <= $idx
